@@ -435,6 +435,24 @@ func (e *Eval) evalLoop(fr *frame, h *ssa.BasicBlock, body map[*ssa.BasicBlock]b
 		}
 		exitSt[o] = out
 	}
+	// word lookups inside the loop: did every path to the back edge pass the hit edge?
+	if haveBack {
+		for site, o := range e.lkObj {
+			if site.Block() == nil || !body[site.Block()] {
+				continue
+			}
+			if e.LoopHits == nil {
+				e.LoopHits = map[ssa.Instruction]bool{}
+			}
+			hit := false
+			if c, ok := backSt[o].(CellC); ok {
+				if b, ok := c.V.(BoolV); ok && b.Known && b.Val {
+					hit = true
+				}
+			}
+			e.LoopHits[site] = hit
+		}
+	}
 	// objects created inside the loop do not survive it
 	for o := range exitSt {
 		if _, pre := entry[o]; !pre {
@@ -810,7 +828,6 @@ func (e *Eval) materialise(ac *ArrC, lp *loopCtx) Content {
 	n.Stores = nil
 	return &n
 }
-
 
 // condAt evaluates a branch condition that depends only on the loop counter at iteration t.
 func condAt(b BoolV, t int64) (bool, bool) {
